@@ -126,16 +126,17 @@ impl<'a> Gen<'a> {
         format!("use {p}.{{t as {alias}}};")
     }
     fn inline_iface(&mut self) -> String {
-        let mut s = String::from("interface {");
+        // items in random order: a `use` may follow type and function items
+        let mut items: Vec<String> = Vec::new();
         for _ in 0..self.r.below(3) {
-            write!(s, " {}", self.use_clause()).unwrap();
+            items.push(self.use_clause());
         }
         if self.r.chance(1, 2) {
-            write!(s, " type {} = u32;", self.fresh("ty")).unwrap();
+            items.push(format!("type {} = u32;", self.fresh("ty")));
         }
-        write!(s, " {}: func();", self.fresh("fn")).unwrap();
-        s.push_str(" }");
-        s
+        items.push(format!("{}: func();", self.fresh("fn")));
+        self.r.shuffle(&mut items);
+        format!("interface {{ {} }}", items.join(" "))
     }
     fn new_p0(&mut self, depth: usize) -> String {
         let mut args: Vec<String> = Vec::new();
@@ -208,13 +209,14 @@ impl<'a> Gen<'a> {
             }
             4 | 5 => {
                 let id = self.fresh("l");
-                let mut s = format!("interface {id} {{");
+                let mut items: Vec<String> = Vec::new();
                 for _ in 0..(1 + self.r.below(2)) {
-                    write!(s, " {}", self.use_clause()).unwrap();
+                    items.push(self.use_clause());
                 }
-                write!(s, " type t = u32; {}: func();", self.fresh("fn")).unwrap();
-                s.push_str(" }");
-                writeln!(out, "{s}").unwrap();
+                items.push("type t = u32;".to_string());
+                items.push(format!("{}: func();", self.fresh("fn")));
+                self.r.shuffle(&mut items);
+                writeln!(out, "interface {id} {{ {} }}", items.join(" ")).unwrap();
                 self.local_ifaces.push(id);
             }
             6 | 7 | 8 => {
@@ -223,7 +225,8 @@ impl<'a> Gen<'a> {
                 let n = 1 + self.r.below(5);
                 let mut used_paths: Vec<String> = Vec::new();
                 for _ in 0..n {
-                    match self.r.below(9) {
+                    match self.r.below(10) {
+                        9 => write!(s, " type {} = u32;", self.fresh("wt")).unwrap(),
                         0 => write!(s, " {}", self.use_clause()).unwrap(),
                         1 | 2 => {
                             let p = self.iface_path();
